@@ -565,10 +565,15 @@ void Ports::dispatch(const char *m, rtosc::RtData &d, bool base_dispatch) const
 
     //simple case
     if(!d.loc || !d.loc_size) {
+        bool hit = false;
         for(const Port &port: ports) {
             if(rtosc_match(port.name,m, NULL))
-                d.port = &port, port.cb(m,d), d.obj = obj;
+                hit = true, d.port = &port, port.cb(m,d), d.obj = obj;
         }
+        //no port took the message: the catch-all (the "*" of ClonePorts), as
+        //in the hashed lookup below
+        if(!hit && default_handler)
+            default_handler(m,d), d.obj = obj;
     } else {
 
         //TODO this function is certainly buggy at the moment, some tests
@@ -583,11 +588,13 @@ void Ports::dispatch(const char *m, rtosc::RtData &d, bool base_dispatch) const
         while(*old_end) ++old_end;
 
         if(impl->pos.empty()) { //No perfect minimal hash function
+            bool hit = false;
             for(unsigned i=0; i<elms; ++i) {
                 const Port &port = ports[i];
                 const char* m_end;
                 if(!rtosc_match(port.name, m, &m_end))
                     continue;
+                hit = true;
                 if(!port.ports)
                     d.matches++;
 
@@ -609,6 +616,12 @@ void Ports::dispatch(const char *m, rtosc::RtData &d, bool base_dispatch) const
                 //Remove the rest of the path
                 char *tmp = old_end;
                 while(*tmp) *tmp++=0;
+            }
+            //no port took the message: the catch-all, as in the hashed
+            //lookup below
+            if(!hit && default_handler) {
+                d.matches++;
+                default_handler(m,d), d.obj = obj;
             }
         } else {
 
